@@ -204,7 +204,8 @@ class Reply(object):
 
     @message.setter
     def message(self, value):
-        if value:
+        # 1xx/3xx replies carry no enhanced status code: keep their text as is
+        if value and (not self._code or self._code[0] in '245'):
             match = message_esc_pattern.match(value)
             if match:
                 self._message = value[match.end(0):]
